@@ -111,13 +111,17 @@ fn agree<const N: usize>(
     let reference = ps_verify(pk, m, &sig.sigma1(), &sig.sigma2());
     rec.eval(1);
     if let Some(e) = expect {
+        // signatures produced by the library itself (sign / chain steps) must satisfy the relation:
+        // a disagreement there is the library's, not the harness's
+        let by_library = what == "sign" || what.starts_with("chain/");
         ensure!(
             reference == e,
-            "harness/reference-disagrees-with-construction",
-            "{}: reference relation says {}, construction expects {}",
+            if by_library { "C07/library-produced-signature-does-not-satisfy-relation" } else { "harness/reference-disagrees-with-construction" },
+            "{}: reference relation says {}, construction expects {} (N={})",
             what,
             reference,
-            e
+            e,
+            N
         );
     }
     if lib != reference {
